@@ -466,7 +466,19 @@ def _d8_cancellation(ctx, fields):
                             if any(t in ('asyncio.CancelledError', 'CancelledError', 'BaseException') for t in types) \
                                     and any(isinstance(c, ast.Call) and U.attr_name(c) in ('notify', 'notify_all') and U.is_self_attr(c.func.value, cond) for c in U.calls(h)) \
                                     and h.body and isinstance(h.body[-1], ast.Raise) and h.body[-1].exc is None:
-                                ok = True
+                                # ... on every path through the handler (a wake-up passed on only when some condition holds
+                                # is lost when it does not: the waiter cannot know what the notifier had in mind)
+                                cfg = ctx.cfg(m)
+                                first = [n for n in cfg.nodes if n.stmt is h.body[0] and n.kind != 'join']
+                                last = [n for n in cfg.nodes if n.stmt is h.body[-1]]
+
+                                def passes_on(n, cond=cond):
+                                    return any(U.attr_name(c) in ('notify', 'notify_all') and U.is_self_attr(c.func.value, cond) for c in F.node_calls(n))
+                                if first and last and not passes_on(first[0]):
+                                    pth = cfg.find_path(first[0], lambda x: x in last, edge_ok=F.normal, stop=passes_on)
+                                    ok = pth is None
+                                else:
+                                    ok = bool(first and last)
                     if isinstance(a, (ast.FunctionDef, ast.AsyncFunctionDef)):
                         break
                 ck.expect(ok, 'C12-D8', m.qual, 'yield from self.%s.wait() re-notifies when cancelled' % cond,
